@@ -1,16 +1,37 @@
-/* Correspondence harness for qvector.c (property C10).
+/* Correspondence harness for qvector.c (property C10, and the vector part of C11 / C12 / C15).
+ * Linked against libqw.a: the library's allocator calls go through harness/allocwrap.h.
  * One operation per input line, one result line per operation (see lean/Driver/Seq.lean).
  *
- *   new <max> <objsize> <options>   start a fresh vector (the previous one is freed)
+ *   new <max> <objsize> <options>   start a fresh vector (the previous one is freed);
+ *                                   bit 1 of options = QVECTOR_THREADSAFE
+ *   fault k | faultfrom k           fail the k-th allocation (all from the k-th on) of the next
+ *                                   windowed call
+ *   end                             free the vector, re-check the kept copies:
+ *                                   `end live=<blocks still allocated> bad=<changed copies>`
  *
- * Result line:  <result of the call> sz=.. obs=[..] | num=.. max=.. objsize=.. opt=.. init=.. [..]
- * The part before `|` is what the public API returns (obs = content read back with getat(i,
- * newmem)); the part after it is the private state and the live slots of the buffer read through
- * the public struct, for the correspondence with the mechanism-level model only.
+ * Result line:  [allocs=<n>] <result of the call> sz=.. obs=[..] | live=.. num=.. max=.. objsize=.. opt=.. init=.. [..]
+ * `allocs=` = allocation attempts inside the call (windowed calls only). The part before `|` is
+ * what the public API returns (obs = content read back with getat(i, newmem)); the part after it
+ * is the private state, the number of blocks the library owns and the live slots of the buffer
+ * read through the public struct, for the correspondence with the mechanism-level model (the C11
+ * oracle reads live= and max=).
  * Element arguments must be exactly objsize bytes long (they are handed over in exactly sized
- * malloc blocks, so that reading more than objsize bytes traps under ASan). */
+ * malloc blocks, so that reading more than objsize bytes traps under ASan); they are overwritten
+ * and freed right after the call. Every copy the library hands out is kept with a private
+ * duplicate until the vector is gone (harness/seqkeep.h). */
 #include "common.h"
+#include "allocwrap.h"
+#include "seqkeep.h"
 #include "qlibc.h"
+
+/* C15/C11: `fault k` / `faultfrom k` arm an allocation failure for the next WINDOWED library
+ * call (every call whose result line starts with `allocs=<n> `, the number of allocation
+ * attempts the library made inside that call); `live=<n>` in the private part of every result
+ * line is the number of blocks the library owns; `end` releases the vector and the kept copies
+ * and prints `end live=<n> bad=<n>`. Bit 1 of <options> is QVECTOR_THREADSAFE. */
+static int E;       /* errno of the windowed call */
+static long A;      /* allocation attempts of the windowed call */
+#define WIN(stmt) do { errno = 0; aw_begin(); stmt; E = errno; A = aw_end(); printf("allocs=%ld ", A); } while (0)
 
 static qvector_t *V;
 static size_t OS;           /* objsize given at construction: the size of the caller's elements */
@@ -26,9 +47,9 @@ static void dump(void) {
         if (d == NULL) printf("null");
         else if (V->objsize >= OS) puthex(stdout, d, OS);
         else { puthex(stdout, d, V->objsize); printf("+short"); }
-        free(d);
+        vf_free(d);
     }
-    printf("] | num=%zu max=%zu objsize=%zu opt=%d init=%zu [", V->num, V->max, V->objsize, V->options, V->initnum);
+    printf("] | live=%ld num=%zu max=%zu objsize=%zu opt=%d init=%zu [", live_blocks(), V->num, V->max, V->objsize, V->options, V->initnum);
     for (size_t i = 0; i < V->num; i++) {
         if (i) printf(",");
         puthex(stdout, (unsigned char *) V->data + i * V->objsize, V->objsize);
@@ -45,7 +66,7 @@ static void res_data(void *d, int e, bool own) {
     printf("data ");
     if (V->objsize >= OS) puthex(stdout, d, OS);
     else { puthex(stdout, d, V->objsize); printf("+short"); }
-    if (own) free(d);
+    if (own) keep(d, V->objsize);
 }
 
 /* element argument: exactly objsize bytes */
@@ -61,63 +82,60 @@ static int do_op(int nw, char **w) {
     errno = 0;
     if ((!strcmp(op, "addfirst") || !strcmp(op, "addlast")) && nw == 2) {
         if (!elem(w[1], &a)) return 0;
-        errno = 0;
-        bool r = op[3] == 'f' ? qvector_addfirst(V, a.p) : qvector_addlast(V, a.p);
-        int e = errno; res_bool(r, e); free(a.p);
+        bool r; WIN(r = op[3] == 'f' ? qvector_addfirst(V, a.p) : qvector_addlast(V, a.p));
+        scribble_free(&a); res_bool(r, E);
     } else if (!strcmp(op, "addat") && nw == 3) {
         if (!elem(w[2], &a)) return 0;
-        errno = 0;
-        bool r = qvector_addat(V, atoi(w[1]), a.p);
-        int e = errno; res_bool(r, e); free(a.p);
+        bool r; WIN(r = qvector_addat(V, atoi(w[1]), a.p));
+        scribble_free(&a); res_bool(r, E);
     } else if (!strcmp(op, "addnull") && nw == 2) {
-        bool r = qvector_addat(V, atoi(w[1]), NULL);
-        int e = errno; res_bool(r, e);
+        bool r; WIN(r = qvector_addat(V, atoi(w[1]), NULL)); res_bool(r, E);
     } else if (!strcmp(op, "getfirst") && nw == 2) {
         bool nm = atoi(w[1]);
-        void *d = qvector_getfirst(V, nm); int e = errno; res_data(d, e, nm);
+        void *d; WIN(d = qvector_getfirst(V, nm)); res_data(d, E, nm);
     } else if (!strcmp(op, "getlast") && nw == 2) {
         bool nm = atoi(w[1]);
-        void *d = qvector_getlast(V, nm); int e = errno; res_data(d, e, nm);
+        void *d; WIN(d = qvector_getlast(V, nm)); res_data(d, E, nm);
     } else if (!strcmp(op, "getat") && nw == 3) {
         bool nm = atoi(w[2]);
-        void *d = qvector_getat(V, atoi(w[1]), nm); int e = errno; res_data(d, e, nm);
+        void *d; WIN(d = qvector_getat(V, atoi(w[1]), nm)); res_data(d, E, nm);
     } else if ((!strcmp(op, "setfirst") || !strcmp(op, "setlast")) && nw == 2) {
         if (!elem(w[1], &a)) return 0;
-        errno = 0;
-        bool r = op[3] == 'f' ? qvector_setfirst(V, a.p) : qvector_setlast(V, a.p);
-        int e = errno; res_bool(r, e); free(a.p);
+        bool r; WIN(r = op[3] == 'f' ? qvector_setfirst(V, a.p) : qvector_setlast(V, a.p));
+        scribble_free(&a); res_bool(r, E);
     } else if (!strcmp(op, "setat") && nw == 3) {
         if (!elem(w[2], &a)) return 0;
-        errno = 0;
-        bool r = qvector_setat(V, atoi(w[1]), a.p);
-        int e = errno; res_bool(r, e); free(a.p);
+        bool r; WIN(r = qvector_setat(V, atoi(w[1]), a.p));
+        scribble_free(&a); res_bool(r, E);
     } else if (!strcmp(op, "popfirst") && nw == 1) {
-        void *d = qvector_popfirst(V); int e = errno; res_data(d, e, true);
+        void *d; WIN(d = qvector_popfirst(V)); res_data(d, E, true);
     } else if (!strcmp(op, "poplast") && nw == 1) {
-        void *d = qvector_poplast(V); int e = errno; res_data(d, e, true);
+        void *d; WIN(d = qvector_poplast(V)); res_data(d, E, true);
     } else if (!strcmp(op, "popat") && nw == 2) {
-        void *d = qvector_popat(V, atoi(w[1])); int e = errno; res_data(d, e, true);
+        void *d; WIN(d = qvector_popat(V, atoi(w[1]))); res_data(d, E, true);
     } else if (!strcmp(op, "removefirst") && nw == 1) {
-        bool r = qvector_removefirst(V); int e = errno; res_bool(r, e);
+        bool r; WIN(r = qvector_removefirst(V)); res_bool(r, E);
     } else if (!strcmp(op, "removelast") && nw == 1) {
-        bool r = qvector_removelast(V); int e = errno; res_bool(r, e);
+        bool r; WIN(r = qvector_removelast(V)); res_bool(r, E);
     } else if (!strcmp(op, "removeat") && nw == 2) {
-        bool r = qvector_removeat(V, atoi(w[1])); int e = errno; res_bool(r, e);
+        bool r; WIN(r = qvector_removeat(V, atoi(w[1]))); res_bool(r, E);
     } else if (!strcmp(op, "size") && nw == 1) {
         printf("n %zu", qvector_size(V));
     } else if (!strcmp(op, "resize") && nw == 2) {
-        bool r = qvector_resize(V, strtoull(w[1], NULL, 10)); int e = errno; res_bool(r, e);
+        bool r; WIN(r = qvector_resize(V, strtoull(w[1], NULL, 10))); res_bool(r, E);
     } else if (!strcmp(op, "reverse") && nw == 1) {
-        qvector_reverse(V); printf("ok");
+        /* void function: an allocation failure is visible in errno only */
+        WIN(qvector_reverse(V)); printf(E == ENOMEM ? "ENOMEM" : "ok");
     } else if (!strcmp(op, "clear") && nw == 1) {
-        qvector_clear(V); printf("ok");
+        WIN(qvector_clear(V)); printf("ok");
     } else if (!strcmp(op, "toarray") && nw == 1) {
         size_t sz = 7777;
-        void *d = qvector_toarray(V, &sz); int e = errno;
-        if (d == NULL) printf("null %s", errname(e));
-        else { printf("data "); puthex(stdout, d, sz * V->objsize); free(d); }
+        void *d; WIN(d = qvector_toarray(V, &sz));
+        if (d == NULL) printf("null %s", errname(E));
+        else { printf("data "); puthex(stdout, d, sz * V->objsize); keep(d, sz * V->objsize); }
         printf(" size=%zu", sz);
     } else if (!strcmp(op, "walk") && nw == 2) {
+        /* not a windowed call (many library calls): an armed failure stays armed */
         bool nm = atoi(w[1]);
         qvector_obj_t o; memset(&o, 0, sizeof(o));
         printf("walk");
@@ -125,7 +143,7 @@ static int do_op(int nw, char **w) {
         errno = 0;
         while (qvector_getnext(V, &o, nm)) {
             printf(" "); puthex(stdout, o.data, V->objsize);
-            if (nm) free(o.data);
+            if (nm) keep(o.data, V->objsize);
             errno = 0;
             if (guard-- == 0) { printf(" ENDLESS"); break; }
         }
@@ -134,9 +152,9 @@ static int do_op(int nw, char **w) {
         memset(&cur, 0, sizeof(cur)); printf("ok");
     } else if (!strcmp(op, "next") && nw == 2) {
         bool nm = atoi(w[1]);
-        bool r = qvector_getnext(V, &cur, nm); int e = errno;
-        if (r) { printf("data "); puthex(stdout, cur.data, V->objsize); if (nm) free(cur.data); }
-        else printf("false %s", errname(e));
+        bool r; WIN(r = qvector_getnext(V, &cur, nm));
+        if (r) { printf("data "); puthex(stdout, cur.data, V->objsize); if (nm) keep(cur.data, V->objsize); }
+        else printf("false %s", errname(E));
         printf(" idx=%d", cur.index);
     } else {
         return 0;
@@ -146,18 +164,29 @@ static int do_op(int nw, char **w) {
 
 int main(void) {
     char *line = NULL; size_t cap = 0; ssize_t len;
-    setvbuf(stdout, NULL, _IOFBF, 1 << 16);
+    harness_init();
     while ((len = getline(&line, &cap, stdin)) > 0) {
         char *w[MAXW]; int nw = split_words(line, w);
         if (nw == 0) continue;
         int done = 0;
+        if ((!strcmp(w[0], "fault") || !strcmp(w[0], "faultfrom")) && nw == 2) {
+            aw_arm(atol(w[1]), w[0][5] == 'f');
+            printf("ok\n"); fflush(stdout); continue;
+        }
+        if (!strcmp(w[0], "end") && nw == 1) {
+            if (V) qvector_free(V);
+            V = NULL;
+            long bad = check_kept();
+            printf("end live=%ld bad=%ld\n", aw_live, bad); fflush(stdout); continue;
+        }
         if (!strcmp(w[0], "new") && nw == 4) {
             if (V) qvector_free(V);
+            long bad = check_kept();
             memset(&cur, 0, sizeof(cur));
             OS = strtoull(w[2], NULL, 10);
-            errno = 0;
-            V = qvector(strtoull(w[1], NULL, 10), OS, atoi(w[3]));
-            if (V == NULL) { printf("null %s\n", errname(errno)); fflush(stdout); continue; }
+            WIN(V = qvector(strtoull(w[1], NULL, 10), OS, atoi(w[3])));
+            if (bad) printf("KEPT-BAD=%ld ", bad);
+            if (V == NULL) { printf("null %s live=%ld\n", errname(E), live_blocks()); fflush(stdout); continue; }
             printf("ok"); done = 1;
         } else if (V != NULL) done = do_op(nw, w);
         if (!done) { printf("bad-op\n"); fflush(stdout); continue; }
@@ -167,5 +196,6 @@ int main(void) {
     }
     free(line);
     if (V) qvector_free(V);
+    check_kept(); free(kept);
     return 0;
 }
